@@ -297,9 +297,11 @@ def layer_a(ctx, stats):
                     exp = want(pv)
                 except (OverflowError, ValueError):
                     exp = None
-                if exp is None or exp != got or type(exp) is not type(got):
+                if exp is None:
+                    continue            # the run-time call itself is a Python error (sleep('0')): nothing to compare
+                if exp != got or type(exp) is not type(got):
                     ctx.fail(f"the constant folded into {site} is not the run-time value of the argument", {**case, "runtime_env": rt, "site": site},
-                             exp if exp is not None else f"CPython value {pv!r}", got, key="fold-site")
+                             exp, got, key="fold-site")
         mnum, mbool, mgly = msites
         for name, mo, ro, conv in (("blink/_resolve_numeric_arg", mnum, rb, lambda w: w),
                                    ("backlight/_resolve_bool_arg", mbool, rl, lambda w: bool(w)),
@@ -366,11 +368,15 @@ class ProgGen:
         self.rng, self.guarded, self.maxdepth = rng, guarded, maxdepth
         self.forbid = []
         self.main_bound = None
+        self.loop_bound = []
 
     def writable(self, env, x):
-        # inside the main loop only names that exist before it are written: a name first bound inside `while True:`
-        # becomes a local of loop() that is reset on every pass (C01's business, not constant folding)
+        # inside a loop (while / for / the main loop) only names that exist before it are written: a name first bound
+        # inside a loop body becomes a C++ local of that body, re-initialised on every pass (variable scoping is
+        # C01's business, not constant folding)
         if self.main_bound is not None and x not in self.main_bound:
+            return False
+        if any(x not in b for b in self.loop_bound):
             return False
         if not self.guarded:
             return True
@@ -506,13 +512,21 @@ class ProgGen:
                         self.promote(env, a[1]); self.promote(env, b[1])
                         return ("if", a[0], b[0])
                     if kind == "while":
-                        a = self.block(self.child(env), depth + 1, rng.randint(1, 3))
+                        self.loop_bound.append(set(env))
+                        try:
+                            a = self.block(self.child(env), depth + 1, rng.randint(1, 3))
+                        finally:
+                            self.loop_bound.pop()
                         self.promote(env, a[1])
                         return ("while", a[0])
                     lv = LOOPV[depth]
                     ch = self.child(env)
                     ch[lv] = ("M",)
-                    a = self.block(ch, depth + 1, rng.randint(1, 3))
+                    self.loop_bound.append(set(env))
+                    try:
+                        a = self.block(ch, depth + 1, rng.randint(1, 3))
+                    finally:
+                        self.loop_bound.pop()
                     a[1].pop(lv, None)
                     self.promote(env, a[1])
                     return ("for", lv, a[0])
@@ -554,7 +568,7 @@ class ProgGen:
                     if ws:
                         out.append(("len", self.rng.choice(ws)))
         if not out:
-            cands = [x for x in RT_N if self.main_bound is None or x in self.main_bound]
+            cands = [x for x in RT_N if (self.main_bound is None or x in self.main_bound) and all(x in b for b in self.loop_bound)]
             x = self.rng.choice(cands or RT_N)
             env.setdefault(x, ("M",))
             out.append(("rt", x, 17))
